@@ -140,7 +140,7 @@ def tags(t):
 
 def run(ctx, prop, fam, relevant, assumptions):
     q = ctx.quick
-    mc = tlc_mc(ctx, "Daemon_mc", "Daemon_mc_%s.cfg" % fam if q else "Daemon_mc_thorough.cfg", timeout=1500, coverage=not q)
+    mc = tlc_mc(ctx, "Daemon_mc", "Daemon_mc_%s.cfg" % fam if q else "Daemon_mc_%s_thorough.cfg" % fam, timeout=1500, coverage=not q)
     nscen = {"c04": (48, 600), "c05": (24, 320), "c09": (48, 600)}[fam][0 if q else 1]
     nrand = {"c04": (48, 600), "c05": (24, 320), "c09": (48, 600)}[fam][0 if q else 1]
     scen = tc.simulate(ctx, "Daemon_mc", "Daemon_gen_%s.cfg" % fam, num=nscen, depth=150)
